@@ -204,11 +204,15 @@ pub struct ConnRun {
     /// the owner answers every delivered request (a small 200) and, after the reads whose bit is
     /// set, writes everything out; the output is not recorded in the steps
     pub auto_respond: Option<u32>,
+    /// reads after which the owner's write attempt fails instead (EPIPE / EAGAIN / zero): the
+    /// queued output is lost, nothing on the receive side is
+    pub auto_fail: u32,
 }
 
 thread_local! {
     /// picked up by the next `ConnRun::new` calls on this thread (None: off)
     pub static AUTO_RESPOND: std::cell::Cell<Option<u32>> = std::cell::Cell::new(None);
+    pub static AUTO_FAIL: std::cell::Cell<u32> = std::cell::Cell::new(0);
 }
 
 pub fn panic_msg(e: Box<dyn std::any::Any + Send>) -> String {
@@ -228,7 +232,7 @@ impl ConnRun {
         if let Some(l) = limit {
             conn.set_payload_max_size(l);
         }
-        ConnRun { conn, ss, consumed: 0, steps: Vec::new(), drain, window: 0, keep: false, kept: Vec::new(), defer_pop: false, auto_respond: AUTO_RESPOND.with(|c| c.get()) }
+        ConnRun { conn, ss, consumed: 0, steps: Vec::new(), drain, window: 0, keep: false, kept: Vec::new(), defer_pop: false, auto_respond: AUTO_RESPOND.with(|c| c.get()), auto_fail: AUTO_FAIL.with(|c| c.get()) }
     }
 
     pub fn remaining(&self) -> usize {
@@ -320,7 +324,16 @@ impl ConnRun {
                 r.set_body(micro_http::Body::new("ok"));
                 self.conn.enqueue_response(r);
             }
-            if (mask >> (self.steps.len() % 32)) & 1 == 1 && self.conn.pending_write() {
+            let bit = self.steps.len() % 32;
+            if (self.auto_fail >> bit) & 1 == 1 && self.conn.pending_write() {
+                let ev = [WriteEv::Epipe, WriteEv::Eagain, WriteEv::Zero][bit % 3];
+                self.ss.borrow_mut().next_write = Some(ev);
+                let r = catch_unwind(AssertUnwindSafe(|| self.conn.try_write()));
+                self.ss.borrow_mut().next_write = None;
+                if let Err(p) = r {
+                    return Err(format!("panic in try_write: {}", panic_msg(p)));
+                }
+            } else if (mask >> bit) & 1 == 1 && self.conn.pending_write() {
                 self.drain_out()?;
             }
         }
